@@ -469,11 +469,11 @@ fn helix_only() -> impl Strategy<Value = PointsCase> {
 
 fn run(r: &Run) {
     let t = r.tier;
-    r.prop("closest_t_direct", t.pick(40_000, 2_000_000), direct_case, direct);
-    r.prop("closest_t_kepler_coordinates", t.pick(60_000, 3_000_000), kepler_case, kepler);
+    r.prop("closest_t_direct", t.pick(40_000, 8_000_000), direct_case, direct);
+    r.prop("closest_t_kepler_coordinates", t.pick(60_000, 12_000_000), kepler_case, kepler);
     r.prop("fitted_tracks_and_vertices", t.pick(400, 20_000), helix_only, fitted);
-    r.prop("fitted_tracks_any_family", t.pick(1_500, 60_000), || points_case(300), fitted);
-    r.prop("end_points_of_fitted_groups", t.pick(3_000, 150_000), end_case, end_points);
+    r.prop("fitted_tracks_any_family", t.pick(1_500, 150_000), || points_case(300), fitted);
+    r.prop("end_points_of_fitted_groups", t.pick(3_000, 400_000), end_case, end_points);
     r.prop("vertex_parameters_crossing_tracks", t.pick(3_000, 150_000), crossing_case, crossing);
     r.prop("vertex_parameters_track_sets", t.pick(1_500, 75_000), super::c14::track_set, track_sets);
 }
